@@ -1,4 +1,5 @@
 import PlumVerif.Model.Schedule
+import PlumVerif.Model.ScheduleHeap
 import PlumVerif.Spec.C18
 /- line-protocol front end for the schedule model (C18) -/
 namespace PlumVerif
@@ -91,6 +92,22 @@ def scheduleOps : List String → Option String
     pure (String.intercalate " " (outs.map fun o => match o with
       | .received => "received" | .decodeError => "err" | .edited o => o.tag | .queued => "queued"
       | .keyError => "KeyError" | .tx p => showHex p | .idle => "idle"))
+  -- the heap machine (object identity): r:<hex> | k:<idx> | e:<edit> | c:<idx> | he:<h>,<day>,<state>,<a>,<b> | hc:<h> | d
+  | "s.heap" :: evs => do
+    let evs ← evs.mapM fun t =>
+      if t = "d" then some HEv.drain
+      else match t.splitOn ":" with
+        | ["r", h] => (parseHex h).map HEv.receive
+        | ["k", i] => i.toNat?.map HEv.keep
+        | ["c", i] => i.toNat?.map HEv.commit
+        | ["hc", h] => h.toNat?.map HEv.hcommit
+        | "e" :: rest => (parseEdit (String.intercalate ":" rest)).map HEv.edit
+        | "he" :: rest => (parseEdit (String.intercalate ":" rest)).map fun e => HEv.hedit e.idx e.toDayEdit
+        | _ => none
+    let outs := (HSys.run HSys.init evs).2
+    pure (String.intercalate " " (outs.map fun o => match o with
+      | .received => "received" | .decodeError => "err" | .handle h => s!"h{h}" | .edited o => o.tag
+      | .queued => "queued" | .keyError => "KeyError" | .tx p => showHex p | .idle => "idle"))
   -- judges (Spec/C18.lean) applied to what the implementation did
   | ["s.judgeset", before, valid, on, i, j, raised, after] => do
     let before ← parseBits before; let after ← parseBits after
